@@ -17,7 +17,7 @@ TLA = os.path.join(VERIF, "tla")
 U = math.pi / 2            # one quarter turn
 DIS = {"constraint": 1 << 0, "equality": 1 << 1, "frictionloss": 1 << 2, "limit": 1 << 3, "contact": 1 << 4,
        "spring": 1 << 5, "damper": 1 << 6, "gravity": 1 << 7, "actuation": 1 << 11, "eulerdamp": 1 << 15, "island": 1 << 18}
-ENBL = {"energy": 1 << 1, "fwdinv": 1 << 2, "invdiscrete": 1 << 3, "diagexact": 1 << 5}
+ENBL = {"sleep": 1 << 4, "energy": 1 << 1, "fwdinv": 1 << 2, "invdiscrete": 1 << 3, "diagexact": 1 << 5}
 INTEGRATOR = {"euler": 0, "rk4": 1, "implicit": 2, "implicitfast": 3}
 
 
@@ -171,7 +171,9 @@ def model_lines(ev, timestep=0.25, integrator="euler", disable=(), enable=(), ex
         L.append("body name=b%d parent=%s pos=%s quat=%s mass=%s ipos=%s inertia=%s explicitinertial=1 gravcomp=%s%s" % (
             k, "world" if b["par"] == 0 else "b%d" % b["par"], csv(b["pos"]), csv(quat_of(b["rot"])), num(b["mass"]),
             csv(b["ipos"]), csv(b["inr"]), num(b.get("gc", 0)), (" " + body_extra(k, b)) if body_extra else ""))
-        if b["jt"] != "none":
+        if b["jt"] == "ball":
+            L.append("joint body=b%d name=j%d type=1 pos=%s" % (k, k, csv(b["janc"])))
+        elif b["jt"] != "none":
             hinge = b["jt"] == "hinge"
             u = U if hinge else 1.0
             # stiffness / damping: linear coefficient followed by the two higher-order polynomial coefficients
@@ -210,9 +212,21 @@ def model_lines(ev, timestep=0.25, integrator="euler", disable=(), enable=(), ex
 def state_lines(ev, ds=0, acc=False):
     """set qpos / qvel (/ qacc) of data slot ds to the published lattice state"""
     dofs = ev["dofs"]
+    B = ev["bodies"]
+    if ev.get("hasball"):
+        # ball joints: qpos holds the quaternion of q quarter turns about the joint axis, scaled by the published factor
+        q, v = [], []
+        for b in B:
+            if b["jt"] == "ball":
+                f = b["qs"][0] / float(b["qs"][1])
+                q += [f * x for x in quat_of((b["ax"], b["q"]))]
+                v += [0.0, 0.0, 0.0]
+            elif b["jt"] != "none":
+                q.append(b["q"] * (U if b["jt"] == "hinge" else 1.0))
+                v.append(b["v"])
+        return ["setv %d qpos %s" % (ds, csv(q)), "setv %d qvel %s" % (ds, csv(v))]
     if not dofs:
         return []
-    B = ev["bodies"]
     q = [B[b - 1]["q"] * unit_of(ev, i) for i, b in enumerate(dofs)]
     v = [B[b - 1]["v"] for b in dofs]
     out = ["setv %d qpos %s" % (ds, csv(q)), "setv %d qvel %s" % (ds, csv(v))]
@@ -335,7 +349,7 @@ def run_cases(exe, cases, timeout=900):
 
 def features(ev):
     """stable description of the class of a model, for signatures"""
-    js = "".join({"none": "-", "slide": "s", "hinge": "h"}[b["jt"]] for b in ev["bodies"])
+    js = "".join({"none": "-", "slide": "s", "hinge": "h", "ball": "b"}[b["jt"]] for b in ev["bodies"])
     return js
 
 
